@@ -236,8 +236,8 @@ def generate_from_statistics(args):
             })
     # remove temporary information
     for v_info in vehicles.values():
-        del v_info["last_arrival_idx"]
-        del v_info["arrival"]
+        v_info.pop("last_arrival_idx", None)
+        v_info.pop("arrival", None)
     for v_info in vehicle_types.values():
         del v_info["count"]
         del v_info["statistical_values"]
